@@ -130,3 +130,57 @@ Proof.
       rewrite (data_set_data_same (heap st) pi body Hp) in E. exact E.
     + intros q Hq Nq. rewrite (Ho q Hq). unfold h0. apply data_set_data_other. congruence.
 Qed.
+
+(* ---- Document.AllParents: the model's fuel is never what ends the walk on an in-order history ----
+   The real AllParents recurses over Parents with no bound. In the histories the properties quantify over every
+   document is merged once, after all the documents it will be merged into exist, so every parent link points to an
+   older document ([ordered]); on such heaps the walk needs at most one level of fuel per document, and the result is
+   the same for every larger fuel. (A caller that links documents in a cycle - library misuse - would make the real
+   code recurse without end; that is outside every property's quantifier and outside this model.) *)
+Definition ordered (h : list doc) : Prop := forall i p, In p (d_parents (get_doc h i)) -> p < i.
+
+Lemma all_parent_ids_nil f h : all_parent_ids f h [] = [].
+Proof. destruct f; reflexivity. Qed.
+
+Lemma flat_map_ext_in {A B} (f g : A -> list B) l : (forall x, In x l -> f x = g x) -> flat_map f l = flat_map g l.
+Proof.
+  induction l as [|x l IH]; intro H; [reflexivity|]. cbn [flat_map]. rewrite (H x (or_introl eq_refl)).
+  f_equal. apply IH. intros y Hy. apply H. now right.
+Qed.
+
+Theorem all_parent_ids_fuel_irrelevant h : ordered h -> forall b f f' ps,
+  (forall p, In p ps -> p < b) -> b <= f -> b <= f' -> all_parent_ids f h ps = all_parent_ids f' h ps.
+Proof.
+  intro Ho. induction b as [|b IH]; intros f f' ps Hb Hf Hf'.
+  - destruct ps as [|p ps]; [now rewrite !all_parent_ids_nil|]. exfalso. specialize (Hb p (or_introl eq_refl)). inversion Hb.
+  - destruct f as [|g]; [inversion Hf|]. destruct f' as [|g']; [inversion Hf'|].
+    cbn [all_parent_ids]. apply flat_map_ext_in. intros p Hp. f_equal.
+    apply IH.
+    + intros q Hq. specialize (Ho p q Hq). specialize (Hb p Hp). apply PeanoNat.Nat.lt_le_trans with p; [exact Ho|]. now apply PeanoNat.Nat.lt_succ_r.
+    + now apply le_S_n.
+    + now apply le_S_n.
+Qed.
+
+(* the parents a patch is applied to (Parser.parents) do not depend on the fuel *)
+Corollary parents_in_fuel_irrelevant st pi k : ordered (heap st) -> pi < List.length (heap st) ->
+  all_parent_ids (1 + List.length (heap st)) (heap st) (d_parents (get_doc (heap st) pi))
+  = all_parent_ids (1 + List.length (heap st) + k) (heap st) (d_parents (get_doc (heap st) pi)).
+Proof.
+  intros Ho Hpi. apply (all_parent_ids_fuel_irrelevant (heap st) Ho (List.length (heap st))).
+  - intros p Hp. specialize (Ho pi p Hp). eapply PeanoNat.Nat.lt_trans; eassumption.
+  - lia.
+  - lia.
+Qed.
+
+(* creating a document whose parents already exist keeps the heap ordered *)
+Lemma ordered_new h id ps data : ordered h -> (forall p, In p ps -> p < List.length h) ->
+  ordered (h ++ [{| d_id := id; d_parents := ps; d_data := data |}]).
+Proof.
+  intros Ho Hps i p Hin. unfold get_doc in Hin.
+  destruct (PeanoNat.Nat.lt_ge_cases i (List.length h)) as [Hlt|Hge].
+  - rewrite app_nth1 in Hin by exact Hlt. exact (Ho i p Hin).
+  - destruct (PeanoNat.Nat.eq_dec i (List.length h)) as [E|N].
+    + subst i. rewrite app_nth2, PeanoNat.Nat.sub_diag in Hin by apply le_n. cbn in Hin. now apply Hps.
+    + rewrite nth_overflow in Hin; [contradiction|]. rewrite app_length. cbn.
+      rewrite PeanoNat.Nat.add_1_r. apply PeanoNat.Nat.le_succ_l. apply PeanoNat.Nat.le_neq. split; [exact Hge|congruence].
+Qed.
